@@ -107,6 +107,28 @@ def split_reports(text):
     return blocks
 
 
+ACCESS_HDR = re.compile(r"^\s+(Read|Write|Previous read|Previous write|Atomic read|Atomic write|Previous atomic read|"
+                        r"Previous atomic write|Cycle in lock order|Mutex M\d+ acquired here)")
+
+
+def access_frames(blk, depth=4):
+    """The innermost `depth` frames of the access stacks of a TSan report (not the thread-creation stacks):
+    a report is attributed to a property only if the racing accesses themselves are in its mechanism."""
+    out, take = [], False
+    for line in blk.splitlines():
+        if ACCESS_HDR.match(line):
+            take = True
+            continue
+        if not line.strip():
+            take = False
+            continue
+        if take:
+            m = re.match(r"\s+#(\d+) ", line)
+            if m and int(m.group(1)) < depth:
+                out.append(line)
+    return "\n".join(out) if out else blk
+
+
 def run_one(hdirs, case, attribute_re, idx, prop):
     out = Outcome(case)
     exe = os.path.join(hdirs[case.flavour], case.exe) if not os.path.isabs(case.exe) else case.exe
@@ -176,7 +198,7 @@ def run_one(hdirs, case, attribute_re, idx, prop):
                 "asan" if "AddressSanitizer" in blk else "ubsan"))
             m = re.search(r"(ThreadSanitizer|AddressSanitizer|LeakSanitizer): ([a-zA-Z\- ]+?)(?: on| \(|$|:)", blk, re.M)
             what = (m.group(2).strip().replace(" ", "-") if m else "report")
-            if kind == "tsan" and attribute_re is not None and not attribute_re.search(blk):
+            if kind == "tsan" and attribute_re is not None and not attribute_re.search(access_frames(blk)):
                 out.san_reports["unattributed"] += 1
                 continue
             out.san_reports["attributed"] += 1
